@@ -398,6 +398,37 @@ func vGenScriptLong(r *rand.Rand) string {
 	return strings.Join(parts, ",")
 }
 
+// vGenScriptTrickle: a source that delivers its stream in tiny pieces - long runs of 0..3-byte reads, more of them than
+// one fill of the reader makes (maxReadCycle source reads, read from the code): a request of a few dozen bytes needs
+// several fills, and a burst of zero-byte reads at least as long as one fill may precede any data. The io.Reader
+// contract allows all of it (a zero-byte read with a nil error is "nothing happened").
+func vGenScriptTrickle(r *rand.Rand) string {
+	n := maxReadCycle + 1 + r.Intn(3*maxReadCycle)
+	var parts []string
+	zeros := 0
+	if r.Intn(3) == 0 {
+		zeros = maxReadCycle + r.Intn(maxReadCycle+2) // a zero-byte burst of at least one whole fill
+	}
+	at := 0
+	if zeros > 0 {
+		at = r.Intn(n)
+	}
+	for i := 0; i < n; i++ {
+		if zeros > 0 && i == at {
+			for j := 0; j < zeros; j++ {
+				parts = append(parts, "0:n")
+			}
+		}
+		k := []int{0, 1, 1, 1, 1, 2, 3}[r.Intn(7)]
+		e := 'n'
+		if i == n-1 && r.Intn(3) == 0 {
+			e = []rune{'e', 'x'}[r.Intn(2)]
+		}
+		parts = append(parts, fmt.Sprintf("%d:%c", k, e))
+	}
+	return strings.Join(parts, ",")
+}
+
 // VerifAdapterMain: adapter -seed S -seqs N -ops K -ops-out F -impl-out F [-replay F]
 func VerifAdapterMain(args []string) int {
 	fs := flag.NewFlagSet("adapter", flag.ContinueOnError)
@@ -491,6 +522,12 @@ func VerifAdapterMain(args []string) int {
 		if long {
 			first = fmt.Sprintf("zr 0 new %s", vGenScriptLong(r))
 		}
+		// one reader sequence in five: a trickling source (more tiny / zero-byte reads than one fill makes) read with
+		// requests of up to a few dozen bytes
+		trickle := kind == "zr" && !long && r.Intn(4) == 0
+		if trickle {
+			first = fmt.Sprintf("zr 0 new %s", vGenScriptTrickle(r))
+		}
 		emit := func(line string) bool {
 			fmt.Fprintln(ow, line)
 			rep := a.exec(strings.Fields(line))
@@ -501,6 +538,9 @@ func VerifAdapterMain(args []string) int {
 			continue
 		}
 		sz := func() int {
+			if trickle {
+				return []int{0, 1, 2, 5, maxReadCycle, maxReadCycle + 1, maxReadCycle + 4, 2*maxReadCycle + 1, 1 + r.Intn(3*maxReadCycle), 1 + r.Intn(3*maxReadCycle), -1}[r.Intn(11)]
+			}
 			return []int{0, 1, 2, 10, 100, 1000, 4095, 4096, 4097, 8192, 10000, r.Intn(9000), -1}[r.Intn(13)]
 		}
 		for i := 0; i < *nops; i++ {
